@@ -258,6 +258,7 @@ def check(repo, tier):
                     run.add(F(entry, 'D2', 'rank_transpose', f'{scen}: ' + '; '.join(bad[:3])))
     # ------------------------------------------------------------------ D3 tt2qtt / qtt2tt
     splits = [[[2]], [[2, 2]], [[2], [3]], [[2, 3], [1, 2]], [[3], [2, 2]]] if tier == 'quick' else [[[2]], [[3]], [[2, 2]], [[2], [3]], [[2, 3], [2]], [[3], [2, 2]], [[2, 2], [3, 2]], [[2], [2], [2]]]
+    splits += [[[2], [1], [2]], [[1], [2]]]          # (a site that is not split / a group of a single core, not in last position)
     splits = [(sp, None) for sp in splits] + [([[2], [3]], (1, 0, 'rc')), ([[2], [2]], (1, 0, 'rc')), ([[2, 2], [3]], (1, 1, 'rc'))]
     # one factor with a trivial column (row) dimension only: a train that mixes operator-like and state-like factors
     splits += [([[2]], (0, 1, 'c')), ([[2]], (0, 0, 'c')), ([[2]], (0, 1, 'r')), ([[3], [2]], (0, 1, 'c')), ([[2], [2]], (1, 0, 'r'))]
@@ -288,7 +289,9 @@ def check(repo, tier):
             qtt = sc.method(a, 'tt2qtt', rows, cols)
             back = sc.method(qtt, 'qtt2tt', [len(r) for r in rows])
             return qtt, back
-        for ch, sc, res, exc in l2.explore(repo, body, typed=False):
+        for ch, sc, res, exc in l2.explore(repo, body, typed=True):
+            # (typed: the operand is complex; a factor of a decomposition enters a projection conjugated)
+            l2rules.typing_obligations(run, 'C02', 'D3', repo, sc, scen, {TTM})
             if exc is not None:
                 run.oblige('D3', (entry, scen), False)
                 l2rules.raised_finding(run, 'C02', 'D3', repo, entry, scen, exc)
